@@ -244,6 +244,15 @@ def real_table(case, mode, expect):
                     bad = "avg_is_mean_of_present_values: %s/%s summary (%r,%r,%r,%r) vs values %s" % (g, m, sm.avg, sm.std, sm.min, sm.max, pv)
                 if not (close(sm.avg, sm2.avg) and close(sm.std, sm2.std, 1e-7) and sm.min == sm2.min and sm.max == sm2.max):
                     bad = "order_of_subjects_irrelevant: %s/%s" % (g, m)
+        # across groups: statistics of the per-group averages (tables in which every group/metric column has a value)
+        cols = {(gi, mi): [cell[(s, gi, mi)] for s in range(S) if cell[(s, gi, mi)] is not None] for gi in range(len(groups)) for mi in range(len(mets))}
+        if all(cols.values()):
+            for stt in (st, st2):
+                ag = stt.get_summary_across_groups()
+                for mi, m in enumerate(mets):
+                    avs = [sum(cols[(gi, mi)]) / len(cols[(gi, mi)]) for gi in range(len(groups))]
+                    if not close(ag[m].avg, sum(avs) / len(avs)) or not close(ag[m].min, min(avs)) or not close(ag[m].max, max(avs)):
+                        bad = "across_groups_avg: metric %s: summary across groups (avg %r, min %r, max %r) vs per-group averages %s" % (m, ag[m].avg, ag[m].min, ag[m].max, avs)
         for stt in (st, st2):
             for s in range(S):
                 d = stt.get_one_subject(subj[s])
